@@ -254,15 +254,15 @@ def r15_4(ctx):
 
 
 def run(ctx):
-    r15_1(ctx)
-    r15_3(ctx)
-    r15_4(ctx)
+    ctx.do(r15_1)
+    ctx.do(r15_3)
+    ctx.do(r15_4)
     from . import c05, c06, c10
-    c10.r10_4(ctx)
-    c10.r10_4_units(ctx)
-    c10.r10_3(ctx)
-    c06.r6_6(ctx)
-    c05.r5_7(ctx)
+    ctx.do(c10.r10_4)
+    ctx.do(c10.r10_4_units)
+    ctx.do(c10.r10_3)
+    ctx.do(c06.r6_6)
+    ctx.do(c05.r5_7)
     ctx.note("R15.2 unit kinds (UID vs sequence-number lists at operation boundaries) decided by C10 R10.4; bounded expansion by C06 R6.6")
     for k, v in ALLOWED_DESTRUCTURE.items():
         ctx.trust(f"frozen: may destructure a message set: {k} - {v}")
